@@ -414,8 +414,9 @@ let run_stmt (b : backend) (s : Sexp.t) : string =
 (* fully parenthesised rendering: same renderer, tables that never drop parentheses *)
 let full_tables (b : backend) : etables =
   let t = tables_of false b in
-  (* operators and NOT are always parenthesised as operands; atoms (incl. sub-queries and tuples) never *)
-  { t with t_drop_paren = (fun sk _ -> not (int_of_n sk < 200 || int_of_n sk = 202)); t_lassoc = (fun _ -> false) }
+  (* operators, NOT and AsEnum (transparent on MySQL / SQLite: it renders as its inner expression) are always
+     parenthesised as operands; atoms (incl. sub-queries and tuples) never *)
+  { t with t_drop_paren = (fun sk _ -> not (int_of_n sk < 200 || int_of_n sk = 202 || int_of_n sk = 210)); t_lassoc = (fun _ -> false) }
 let run_expr_full (b : backend) (s : Sexp.t) : string =
   try
     let q = QSelect (build_select [SCSelExpr (SelExpr (expr s, None, None))]) in
